@@ -128,7 +128,12 @@ E2EJudge(e, L, keep, drop) ==
                 ELSE IF e.null_ulps > TolUlps THEN "gn_default_not_min_norm"
                 ELSE "ok" : nf \in {Only({NormalForm(s.A, s.b) : s \in {GNSystem(L)}})} })
   ELSE Only({ Only({ LET c == LMSys(e, e.sys, A, h.b, keep, drop) IN
-                     IF c # "ok" THEN c ELSE IF e.res_ulps > TolUlps THEN "lm_default_not_solution" ELSE "ok" :
+                     \* the default solver (Cholesky) is held to TolUlps; the rank-revealing solvers (PINV, LSTSQ) and the
+                     \* upper-triangular Cholesky are backward stable only norm-wise on the ill-conditioned damped matrix
+                     \* (diagonal entries clamped up from 0): 4096 times more (a wrong solve is off by ~1/eps ulps)
+                     IF c # "ok" THEN c
+                     ELSE IF e.res_ulps > TolUlps * (IF e.solver = "default" THEN 1 ELSE 4096) THEN "lm_default_not_solution"
+                     ELSE "ok" :
                      A \in {Damp(h.A, e.sys.lam)} }) :
               h \in {LMInit(L, e.mn, e.mx)} })
 E2EClause(e) ==
